@@ -99,6 +99,7 @@ class World:
         self.lost = None            # op index at which the ghost's id prediction was refuted
         self.epoch = 0              # number of CONSUME ops so far (forwards are pushed only there)
         self.rewound_groups = {}    # group -> op index of the first cursor rewind (known finding)
+        self.recreated_groups = {}  # group -> op index at which a resumed member re-created it (known finding)
         self.idle_points = []       # op indices at which the router was idle (CONSUME -> NONE 0)
         self.last_some = -1
         self.cur_op = 0
@@ -210,6 +211,12 @@ class World:
             for p, (q, _old) in sess[0].items():
                 l.subs[p] = (q, len(self.accepted), False)
                 l.resumed_subs = getattr(l, "resumed_subs", []) + [(p, q, 0)]
+            # known finding K-C17-rejoin: a shared group whose live members have all left is dropped;
+            # this resumed member re-creates it from its own saved cursor
+            for p_ in sess[0]:
+                g_, _f = strip_share(p_)
+                if g_ is not None and not any(o is not l and o.registered and o.ended is None and p_ in o.subs for o in self.links):
+                    self.recreated_groups.setdefault(g_, i)
             # releases still awaiting PUBCOMP are announced again, right after the ConnAck
             l.rel_pending = deque(sess[1])
             for pk in sess[1]:
@@ -535,7 +542,12 @@ def check_end(w):
     w.quiescent = q
     if spinning_end(w):
         shared = any(strip_share(p_)[0] is not None for l in w.links for (p_, _q, _s, _a) in getattr(l, "new_subs", []))
-        w.viol(len(w.ops) - 1, "C17" if shared else "C01",
+        if shared and w.rewound_groups:
+            # the rewind leaves the group cursor behind a member that parked at the log end: the
+            # rewound messages are only handed out at the next publish (same known finding)
+            w.known.append((len(w.ops) - 1, "C17", "K-C17-rewind", "after a group cursor rewind (groups %s) the router keeps skipping a shared request: the group's current member is parked beyond the rewound cursor" % sorted(w.rewound_groups)))
+        else:
+          w.viol(len(w.ops) - 1, "C17" if shared else "C01",
                "the router never goes idle: it keeps consuming ready connections without forwarding anything although every client has drained, acknowledged and sent its Readys%s" % (
                    " (a shared subscription request is skipped for ever: the group's turn rests on a member that cannot take it)" if shared else ""))
     ended_by_deferred = set()
@@ -888,12 +900,16 @@ def check_delivery(w, q):
                 if cnt > n_paths:
                     if g in w.rewound_groups:
                         w.known.append((l.at, "C17", "K-C17-rewind", "group %r member link %d got %r %d times after the group cursor was rewound" % (g, l.k, key, cnt)))
+                    elif g in w.recreated_groups:
+                        w.known.append((l.at, "C17", "K-C17-rejoin", "group %r member link %d got %r %d times after the group was re-created by a resumed member" % (g, l.k, key, cnt)))
                     else:
                         w.viol(l.at, "C17", "group %r member link %d got %r %d times" % (g, l.k, key, cnt))
                 if n_paths == 1:
                     if key in seen and seen[key] is not l:
                         if g in w.rewound_groups:
                             w.known.append((l.at, "C17", "K-C17-rewind", "group %r: %r forwarded to two members after the group cursor was rewound" % (g, key)))
+                        elif g in w.recreated_groups:
+                            w.known.append((l.at, "C17", "K-C17-rejoin", "group %r: %r forwarded to two members after the group was re-created by a resumed member" % (g, key)))
                         else:
                             w.viol(l.at, "C17", "group %r: %r forwarded to two members (links %d and %d)" % (g, key, seen[key].k, l.k))
                     seen[key] = l
